@@ -243,6 +243,8 @@ impl super::MainState {
         {
             // update last activity if something sent
             if something_done {
+                #[cfg(feature = "verif")]
+                super::verif::window("privmsg").await;
                 let mut state = self.state.write().await;
                 let user = state.users.get_mut(user_nick).unwrap();
                 user.last_activity = SystemTime::now()
